@@ -4,7 +4,7 @@
 
    Table = TRUE   "rule table": every single instruction over the five names (all operand shapes of every
                   checked kind) and SET/SHIFT with every expression of depth <= 2 over the leaves
-                  {r, n, u, a real number, an imaginary number, pi, a variable}; one-instruction programs.
+                  {r, n, u, a real number, numbers with imaginary part +2, -2, +0.001, -0.001, pi, a variable}; one-instruction programs.
    Table = FALSE  "programs": every body up to MaxLen over a reduced alphabet of well-typed and ill-typed
                   instructions of every kind, each also transformed once - two instructions swapped, one
                   duplicated, or the regions consistently renamed (a swap of two declared names, a move to
@@ -17,7 +17,11 @@ D0 == ("r" :> "REAL") @@ ("n" :> "INTEGER") @@ ("b" :> "BIT") @@ ("o" :> "OCTET"
 N5 == {"r", "n", "b", "o", "u"}
 Operands == {OInt, OReal} \cup {OMem(x) : x \in N5}
 
-Leaves   == {EAddr("r"), EAddr("n"), EAddr("u"), ENum("1.5", "0"), ENum("0", "2.0"), EPi, EVar("x")}
+\* numbers: real; imaginary part positive, negative (constructible through the API only - the harness builds
+\* every expression through the public constructors), and small of both signs but far above the code's
+\* f64::EPSILON tolerance
+Leaves   == {EAddr("r"), EAddr("n"), EAddr("u"), ENum("1.5", "0"), ENum("0", "2.0"), ENum("1.5", "-2.0"),
+             ENum("0", "0.001"), ENum("1.5", "-0.001"), EPi, EVar("x")}
 Wrap1(S) == {ENeg(e) : e \in S} \cup {EFn("sin", e) : e \in S}
 D1 == Leaves \cup Wrap1(Leaves) \cup {EInf("+", l, r) : l, r \in Leaves}
 D2 == D1 \cup Wrap1(D1)
